@@ -73,6 +73,9 @@ type WorkerResult struct {
 	Probes      map[string]int `json:"probes"`
 	SimSeconds  float64        `json:"sim_seconds"`
 	Yields      int64          `json:"yields"`
+	MaxYields   int64          `json:"max_yields"` // most yields seen in one run
+	MaxSteps    int            `json:"max_steps"`
+	MaxTasks    int            `json:"max_tasks"`
 	Steps       int64          `json:"steps"`
 	Findings    []*Finding     `json:"findings"`
 	Samples     []Sample       `json:"samples"`
@@ -147,6 +150,11 @@ func (w *worker) account(label string, in RunInput, out RunOutput) {
 	}
 	w.res.SimSeconds += out.SimTime.Seconds()
 	w.res.Yields += out.Yields
+	if out.Yields > w.res.MaxYields {
+		w.res.MaxYields = out.Yields
+	}
+	w.res.MaxSteps = max(w.res.MaxSteps, out.Steps)
+	w.res.MaxTasks = max(w.res.MaxTasks, out.Tasks)
 	w.res.Steps += int64(out.Steps)
 	if out.Nontrivial {
 		w.res.Nontrivial++
